@@ -156,7 +156,8 @@ def _arg(r, name, obj, n):
     if nm == "key":
         k = r.random()
         if k < 0.5:
-            return _ints(r, n) if r.random() < 0.9 else 0
+            v = _ints(r, n)
+            return 0 if v is None else v
         return slice(_ints(r, n), _ints(r, n), r.choice([None, 1, -1, 2, -2, 0, n + 1, -n - 1]))
     if nm == "scale":
         return r.choice([None, 2, 0.5, 0, "auto", -1])
@@ -290,9 +291,13 @@ def _fuzz(target, seed, steps, lsb0):
                         for p in params:
                             if p.default is not inspect.Parameter.empty and r.random() < 0.45:
                                 break
-                            args.append(_arg(r, p.name, obj, n))
+                            if name == "pp" and p.name == "fmt":
+                                args.append(r.choice(PP_FMTS))
+                            else:
+                                args.append(_arg(r, p.name, obj, n))
                     def thunk(fn=fn, args=args, name=name):
-                        res = fn(*args)
+                        kw = {"stream": io.StringIO()} if name == "pp" and len(args) < len(params) else {}
+                        res = fn(*args, **kw)
                         if hasattr(res, "__next__"):                 # drain generators (cut, split, findall)
                             res = [x for _, x in zip(range(2000), res)]
                         return res
@@ -304,6 +309,9 @@ def _fuzz(target, seed, steps, lsb0):
                 outcome = "internal:RecursionError"
             except MemoryError:
                 outcome = "skip:MemoryError"
+            except EOFError as e:
+                # Array.fromfile documents EOFError (as array.array.fromfile does) when fewer than n items are available
+                outcome = "documented" if "fromfile" in (desc or "") else "internal:EOFError"
             except Exception as e:               # noqa: BLE001
                 outcome = "documented" if isinstance(e, DOC_EXC) else "internal:" + type(e).__name__
             log.append(desc)
